@@ -204,6 +204,34 @@ fn replay_call(e: &Value, st: &mut Stats) -> Option<Value> {
                 "obs": {"direct": o.direct, "prompter": o.prompter, "line": o.line, "post": o.post_direct}}))
 }
 
+/// spec -> impl: one EofGuard case.
+fn replay_guard(e: &Value, st: &mut Stats) -> Option<Value> {
+    const MSG: &str = "# Type `exit` to leave the shell when the ignore-eof option is on.\n";
+    let (inter, tty, ign) = (e["inter"].as_bool().unwrap_or(false), e["tty"].as_bool().unwrap_or(false), e["ign"].as_bool().unwrap_or(false));
+    let k = e["k"].as_u64().unwrap_or(0) as usize;
+    let (err, line, panic) = run::run_guard(inter, tty, ign, k, MSG);
+    st.calls += 1;
+    let symptom = if !panic.is_empty() {
+        "outcome"
+    } else if !pat::matches(&e["pat"], &err) {
+        "guard-stderr"
+    } else if line != e["ret"].as_str().unwrap_or("") {
+        "guard-line"
+    } else {
+        if !err.is_empty() {
+            st.nontrivial += 1;
+        }
+        return None;
+    };
+    let key = json!({"dir": "spec->impl", "fam": "guard", "symptom": symptom, "interactive": inter, "tty": tty, "ignoreeof": ign,
+                     "eofs": k, "feat": "guard", "ps": "", "env": ""});
+    let detail = format!(
+        "{symptom}: EofGuard::next_line over {k} end-of-file conditions (interactive={inter}, terminal={tty}, ignoreeof={ign}) wrote {} warning(s) and returned {line:?}; expected {} warning(s) and {:?}; {panic}",
+        err.matches('\n').count(), pat::render(&e["pat"]).matches('\n').count(), e["ret"].as_str().unwrap_or("")
+    );
+    Some(json!({"key": key, "detail": detail, "input": [], "sc": e, "obs": {"stderr": clip(&err, 300), "line": line}}))
+}
+
 fn replay(args: &[String]) {
     let threads = opt_usize(args, "--threads", 8);
     let lines: Vec<String> = util::open_in(args).lines().map(|l| l.unwrap()).filter(|l| !l.trim().is_empty()).collect();
@@ -223,7 +251,11 @@ fn replay(args: &[String]) {
                     st.n += 1;
                     let fam = e["fam"].as_str().unwrap_or("").to_string();
                     *st.by_fam.entry(fam.clone()).or_default() += 1;
-                    let m = if fam == "call" { replay_call(&e, &mut st) } else { replay_session(&e, &mut st) };
+                    let m = match fam.as_str() {
+                        "call" => replay_call(&e, &mut st),
+                        "guard" => replay_guard(&e, &mut st),
+                        _ => replay_session(&e, &mut st),
+                    };
                     if let Some(m) = m {
                         st.mismatches += 1;
                         out.lock().unwrap().push(m.to_string());
